@@ -331,14 +331,18 @@ func (p *service) processSubscribe(msg *message.SubscribeMessage) error {
 		} else {
 			nrmsgs := p.rmsgs[rlen:]
 			for j := range nrmsgs {
-				if nrmsgs[j].QoS() > rqos {
-					// do not alter retained message
+				if nrmsgs[j].QoS() != message.QosAtMostOnce {
+					// do not alter retained message (a copy is needed for
+					// a lower QoS as well as for the packet ID of this
+					// delivery, see publish())
 					m, err := nrmsgs[j].Clone()
 					if err != nil {
 						log.Warningf("Clone of message failed: %v", err)
 					} else {
 						// downgrade qos
-						m.SetQoS(rqos)
+						if m.QoS() > rqos {
+							m.SetQoS(rqos)
+						}
 						// affects p.rmsgs
 						nrmsgs[j] = m
 					}
